@@ -63,3 +63,23 @@ func init() {
 		}
 	})
 }
+
+func init() {
+	register("DBG-rejections2", func(w *World, r *Report) {
+		for _, m := range []string{"cfevesting", "cfeminter", "cfedistributor", "cfesignature"} {
+			fn := w.Func("x/" + m + "/types.GenesisState.Validate")
+			if fn == nil {
+				continue
+			}
+			inParams := map[*ssa.Function]bool{}
+			if pv := w.Func("x/" + m + "/types.Params.Validate"); pv != nil {
+				for f := range w.CG().Reach([]*ssa.Function{pv}) {
+					inParams[f] = true
+				}
+			}
+			for _, rj := range genesisRejections(w, fn) {
+				fmt.Println("RJ", m, "|", inParams[rj.Fn], "|", rj.Key, "|", funcName(rj.Fn))
+			}
+		}
+	})
+}
